@@ -141,16 +141,16 @@ theorem findCtor_ok {S : Schema} {i id c : Nat} (h : findCtor S i id = some c) :
 /-! ### motives: a successful decode returns an encodable value and a suffix of the input -/
 
 def DecTyOk (S : Schema) (fuel : Nat) : Prop :=
-  ∀ (t : Ty) (b : Bytes) (v : Val) (r : Bytes), decTy S fuel t b = .ok (v, r) →
+  ∀ (d : Nat) (t : Ty) (b : Bytes) (v : Val) (r : Bytes), decTy S fuel d t b = .ok (v, r) →
     r <:+ b ∧ (encTy S t v).isSome = true
 
 def DecFieldsOk (S : Schema) (fuel : Nat) : Prop :=
-  ∀ (env : List Nat) (fs : List Field) (b : Bytes) (vs : Vals) (r : Bytes),
-    decFields S fuel env fs b = .ok (vs, r) → r <:+ b ∧ (encFields S env fs vs).isSome = true
+  ∀ (d : Nat) (env : List Nat) (fs : List Field) (b : Bytes) (vs : Vals) (r : Bytes),
+    decFields S fuel d env fs b = .ok (vs, r) → r <:+ b ∧ (encFields S env fs vs).isSome = true
 
 def DecElemsOk (S : Schema) (fuel : Nat) : Prop :=
-  ∀ (t : Ty) (n : Nat) (b : Bytes) (vs : Vals) (r : Bytes),
-    decElems S fuel t n b = .ok (vs, r) →
+  ∀ (d : Nat) (t : Ty) (n : Nat) (b : Bytes) (vs : Vals) (r : Bytes),
+    decElems S fuel d t n b = .ok (vs, r) →
       r <:+ b ∧ vs.length = n ∧ (encElems S t vs).isSome = true
 
 theorem isSome_some {α} {o : Option α} (h : o.isSome = true) : ∃ x, o = some x := by
@@ -160,7 +160,7 @@ theorem isSome_some {α} {o : Option α} (h : o.isSome = true) : ∃ x, o = some
 
 theorem decTy_ok_step (S : Schema) (f : Nat) (hF : DecFieldsOk S f) (hE : DecElemsOk S f) :
     DecTyOk S (f + 1) := by
-  intro t b v r h
+  intro d t b v r h
   cases t with
   | int =>
     simp only [decTy] at h
@@ -246,13 +246,13 @@ theorem decTy_ok_step (S : Schema) (f : Nat) (hF : DecFieldsOk S f) (hE : DecEle
           | ok p =>
             obtain ⟨u, r1⟩ := p
             simp only [h1] at h
-            cases h4 : decFields S f [] ct.fields r1 with
+            cases h4 : decFields S f d [] ct.fields r1 with
             | error e => simp [h4] at h
             | ok q =>
               obtain ⟨fs, r2⟩ := q
               simp only [h4] at h
               injection h with h; injection h with h5 h6; subst h5 h6
-              obtain ⟨hs, he⟩ := hF [] ct.fields r1 fs r2 h4
+              obtain ⟨hs, he⟩ := hF d [] ct.fields r1 fs r2 h4
               obtain ⟨e, he'⟩ := isSome_some he
               exact ⟨hs.trans (consumeID_suffix h1), by simp [encTy, hg, h3, hid, he']⟩
   | boxed i =>
@@ -262,6 +262,10 @@ theorem decTy_ok_step (S : Schema) (f : Nat) (hF : DecFieldsOk S f) (hE : DecEle
     | ok p =>
       obtain ⟨id, r1⟩ := p
       simp only [h1] at h
+      cases d with
+      | zero => simp at h
+      | succ d' =>
+      simp only at h
       cases h2 : findCtor S i id with
       | none => simp [h2] at h
       | some c =>
@@ -270,13 +274,13 @@ theorem decTy_ok_step (S : Schema) (f : Nat) (hF : DecFieldsOk S f) (hE : DecEle
         | none => simp [h3] at h
         | some ct =>
           simp only [h3] at h
-          cases h4 : decFields S f [] ct.fields r1 with
+          cases h4 : decFields S f d' [] ct.fields r1 with
           | error e => simp [h4] at h
           | ok q =>
             obtain ⟨fs, r2⟩ := q
             simp only [h4] at h
             injection h with h; injection h with h5 h6; subst h5 h6
-            obtain ⟨hs, he⟩ := hF [] ct.fields r1 fs r2 h4
+            obtain ⟨hs, he⟩ := hF d' [] ct.fields r1 fs r2 h4
             obtain ⟨hi, hid⟩ := findCtor_ok h2
             have hcid : ct.id = some id := by simpa [ctorId, h3] using hid
             obtain ⟨e, he'⟩ := isSome_some he
@@ -290,13 +294,13 @@ theorem decTy_ok_step (S : Schema) (f : Nat) (hF : DecFieldsOk S f) (hE : DecEle
       cases bare with
       | true =>
         simp only [if_true] at h
-        cases h4 : decFields S f [] ct.fields b with
+        cases h4 : decFields S f d [] ct.fields b with
         | error e => simp [h4] at h
         | ok q =>
           obtain ⟨fs, r2⟩ := q
           simp only [h4] at h
           injection h with h; injection h with h5 h6; subst h5 h6
-          obtain ⟨hs, he⟩ := hF [] ct.fields b fs r2 h4
+          obtain ⟨hs, he⟩ := hF d [] ct.fields b fs r2 h4
           obtain ⟨e, he'⟩ := isSome_some he
           exact ⟨hs, by simp [encTy, h3, he']⟩
       | false =>
@@ -310,13 +314,13 @@ theorem decTy_ok_step (S : Schema) (f : Nat) (hF : DecFieldsOk S f) (hE : DecEle
           | ok p =>
             obtain ⟨u, r1⟩ := p
             simp only [h1] at h
-            cases h4 : decFields S f [] ct.fields r1 with
+            cases h4 : decFields S f d [] ct.fields r1 with
             | error e => simp [h4] at h
             | ok q =>
               obtain ⟨fs, r2⟩ := q
               simp only [h4] at h
               injection h with h; injection h with h5 h6; subst h5 h6
-              obtain ⟨hs, he⟩ := hF [] ct.fields r1 fs r2 h4
+              obtain ⟨hs, he⟩ := hF d [] ct.fields r1 fs r2 h4
               obtain ⟨e, he'⟩ := isSome_some he
               exact ⟨hs.trans (consumeID_suffix h1), by simp [encTy, h3, hid, he']⟩
   | vec bareHdr t =>
@@ -329,13 +333,13 @@ theorem decTy_ok_step (S : Schema) (f : Nat) (hF : DecFieldsOk S f) (hE : DecEle
       | ok p =>
         obtain ⟨n, r1⟩ := p
         simp only [h1] at h
-        cases h4 : decElems S f t n r1 with
+        cases h4 : decElems S f d t n r1 with
         | error e => simp [h4] at h
         | ok q =>
           obtain ⟨xs, r2⟩ := q
           simp only [h4] at h
           injection h with h; injection h with h5 h6; subst h5 h6
-          obtain ⟨hs, hl, he⟩ := hE t n r1 xs r2 h4
+          obtain ⟨hs, hl, he⟩ := hE d t n r1 xs r2 h4
           obtain ⟨e, he'⟩ := isSome_some he
           obtain ⟨hs1, hn⟩ := getBareLen_ok h1
           exact ⟨hs.trans hs1, by simp [encTy, hl, hn, he']⟩
@@ -346,20 +350,20 @@ theorem decTy_ok_step (S : Schema) (f : Nat) (hF : DecFieldsOk S f) (hE : DecEle
       | ok p =>
         obtain ⟨n, r1⟩ := p
         simp only [h1] at h
-        cases h4 : decElems S f t n r1 with
+        cases h4 : decElems S f d t n r1 with
         | error e => simp [h4] at h
         | ok q =>
           obtain ⟨xs, r2⟩ := q
           simp only [h4] at h
           injection h with h; injection h with h5 h6; subst h5 h6
-          obtain ⟨hs, hl, he⟩ := hE t n r1 xs r2 h4
+          obtain ⟨hs, hl, he⟩ := hE d t n r1 xs r2 h4
           obtain ⟨e, he'⟩ := isSome_some he
           obtain ⟨hs1, hn⟩ := getVectorHeader_ok h1
           exact ⟨hs.trans hs1, by simp [encTy, hl, hn, he']⟩
 
 theorem decFields_ok_step (S : Schema) (f : Nat) (hT : DecTyOk S f) (hF : DecFieldsOk S f) :
     DecFieldsOk S (f + 1) := by
-  intro env fs b vs r h
+  intro d env fs b vs r h
   cases fs with
   | nil =>
     simp only [decFields] at h
@@ -373,43 +377,43 @@ theorem decFields_ok_step (S : Schema) (f : Nat) (hT : DecTyOk S f) (hF : DecFie
       simp only [hc] at h
       by_cases htf : fld.ty = .trueFlag
       · simp only [htf, if_true] at h
-        cases h4 : decFields S f env rest b with
+        cases h4 : decFields S f d env rest b with
         | error e => simp [h4] at h
         | ok q =>
           obtain ⟨ws, r2⟩ := q
           simp only [h4] at h
           injection h with h; injection h with h5 h6; subst h5 h6
-          obtain ⟨hs, he⟩ := hF env rest b ws r2 h4
+          obtain ⟨hs, he⟩ := hF d env rest b ws r2 h4
           exact ⟨hs, by simp [encFields, hc, htf, Val.bool?, he]⟩
       · simp only [htf, if_false] at h
         cases hp : hasBit (envWord env k) bit with
         | true =>
           simp only [hp, if_true] at h
-          cases h1 : decTy S f fld.ty b with
+          cases h1 : decTy S f d fld.ty b with
           | error e => simp [h1] at h
           | ok p =>
             obtain ⟨v, r1⟩ := p
             simp only [h1] at h
-            cases h4 : decFields S f env rest r1 with
+            cases h4 : decFields S f d env rest r1 with
             | error e => simp [h4] at h
             | ok q =>
               obtain ⟨ws, r2⟩ := q
               simp only [h4] at h
               injection h with h; injection h with h5 h6; subst h5 h6
-              obtain ⟨hs1, he1⟩ := hT fld.ty b v r1 h1
-              obtain ⟨hs, he⟩ := hF env rest r1 ws r2 h4
+              obtain ⟨hs1, he1⟩ := hT d fld.ty b v r1 h1
+              obtain ⟨hs, he⟩ := hF d env rest r1 ws r2 h4
               obtain ⟨e1, he1'⟩ := isSome_some he1
               obtain ⟨e2, he2'⟩ := isSome_some he
               exact ⟨hs.trans hs1, by simp [encFields, hc, htf, hp, he1', he2']⟩
         | false =>
           simp only [hp, Bool.false_eq_true, if_false] at h
-          cases h4 : decFields S f env rest b with
+          cases h4 : decFields S f d env rest b with
           | error e => simp [h4] at h
           | ok q =>
             obtain ⟨ws, r2⟩ := q
             simp only [h4] at h
             injection h with h; injection h with h5 h6; subst h5 h6
-            obtain ⟨hs, he⟩ := hF env rest b ws r2 h4
+            obtain ⟨hs, he⟩ := hF d env rest b ws r2 h4
             exact ⟨hs, by simp [encFields, hc, htf, hp, Val.isAbsent, he]⟩
     | none =>
       simp only [hc] at h
@@ -420,36 +424,36 @@ theorem decFields_ok_step (S : Schema) (f : Nat) (hT : DecTyOk S f) (hF : DecFie
         | ok p =>
           obtain ⟨n, r1⟩ := p
           simp only [h1] at h
-          cases h4 : decFields S f (env ++ [n]) rest r1 with
+          cases h4 : decFields S f d (env ++ [n]) rest r1 with
           | error e => simp [h4] at h
           | ok q =>
             obtain ⟨ws, r2⟩ := q
             simp only [h4] at h
             injection h with h; injection h with h5 h6; subst h5 h6
-            obtain ⟨hs, he⟩ := hF (env ++ [n]) rest r1 ws r2 h4
+            obtain ⟨hs, he⟩ := hF d (env ++ [n]) rest r1 ws r2 h4
             obtain ⟨e2, he2'⟩ := isSome_some he
             exact ⟨hs.trans (getU32_suffix h1), by simp [encFields, hc, hfl, Val.word?, getU32_lt h1, he2']⟩
       · simp only [hfl, if_false] at h
-        cases h1 : decTy S f fld.ty b with
+        cases h1 : decTy S f d fld.ty b with
         | error e => simp [h1] at h
         | ok p =>
           obtain ⟨v, r1⟩ := p
           simp only [h1] at h
-          cases h4 : decFields S f env rest r1 with
+          cases h4 : decFields S f d env rest r1 with
           | error e => simp [h4] at h
           | ok q =>
             obtain ⟨ws, r2⟩ := q
             simp only [h4] at h
             injection h with h; injection h with h5 h6; subst h5 h6
-            obtain ⟨hs1, he1⟩ := hT fld.ty b v r1 h1
-            obtain ⟨hs, he⟩ := hF env rest r1 ws r2 h4
+            obtain ⟨hs1, he1⟩ := hT d fld.ty b v r1 h1
+            obtain ⟨hs, he⟩ := hF d env rest r1 ws r2 h4
             obtain ⟨e1, he1'⟩ := isSome_some he1
             obtain ⟨e2, he2'⟩ := isSome_some he
             exact ⟨hs.trans hs1, by simp [encFields, hc, hfl, he1', he2']⟩
 
 theorem decElems_ok_step (S : Schema) (f : Nat) (hT : DecTyOk S f) (hE : DecElemsOk S f) :
     DecElemsOk S (f + 1) := by
-  intro t n b vs r h
+  intro d t n b vs r h
   cases n with
   | zero =>
     simp only [decElems] at h
@@ -457,19 +461,19 @@ theorem decElems_ok_step (S : Schema) (f : Nat) (hT : DecTyOk S f) (hE : DecElem
     exact ⟨List.suffix_refl _, rfl, by simp [encElems]⟩
   | succ m =>
     simp only [decElems] at h
-    cases h1 : decTy S f t b with
+    cases h1 : decTy S f d t b with
     | error e => simp [h1] at h
     | ok p =>
       obtain ⟨v, r1⟩ := p
       simp only [h1] at h
-      cases h4 : decElems S f t m r1 with
+      cases h4 : decElems S f d t m r1 with
       | error e => simp [h4] at h
       | ok q =>
         obtain ⟨ws, r2⟩ := q
         simp only [h4] at h
         injection h with h; injection h with h5 h6; subst h5 h6
-        obtain ⟨hs1, he1⟩ := hT t b v r1 h1
-        obtain ⟨hs, hl, he⟩ := hE t m r1 ws r2 h4
+        obtain ⟨hs1, he1⟩ := hT d t b v r1 h1
+        obtain ⟨hs, hl, he⟩ := hE d t m r1 ws r2 h4
         obtain ⟨e1, he1'⟩ := isSome_some he1
         obtain ⟨e2, he2'⟩ := isSome_some he
         exact ⟨hs.trans hs1, by simp [Vals.length, hl], by simp [encElems, he1', he2']⟩
@@ -479,9 +483,9 @@ theorem dec_ok_all (S : Schema) : ∀ fuel, DecTyOk S fuel ∧ DecFieldsOk S fue
   induction fuel with
   | zero =>
     refine ⟨?_, ?_, ?_⟩
-    · intro t b v r h; simp [decTy] at h
-    · intro env fs b vs r h; simp [decFields] at h
-    · intro t n b vs r h; simp [decElems] at h
+    · intro d t b v r h; simp [decTy] at h
+    · intro d env fs b vs r h; simp [decFields] at h
+    · intro d t n b vs r h; simp [decElems] at h
   | succ f ih =>
     obtain ⟨hT, hF, hE⟩ := ih
     exact ⟨decTy_ok_step S f hF hE, decFields_ok_step S f hT hF, decElems_ok_step S f hT hE⟩
